@@ -1,4 +1,4 @@
-(* GENEQ lemma=gen_LH_init_eq requires=gen_LH_init_rd,gen_LH_init_rs1,gen_LH_init_imm properties=C01,C02 *)
+(* GENEQ lemma=gen_LH_init_eq requires=gen_LH_init_rd,gen_LH_init_rs1,gen_LH_init_imm properties=C01 *)
 From ArchSimGenEq Require Import GenEqTac.
 From ArchSim Require Import Model.RV Model.RVSplit.
 From ArchSimGen Require Import GenRVTypes GenRV.
